@@ -34,7 +34,7 @@ caught=""; missed=""
 if [ "$ok" != no ]; then
   for p in "$@"; do
     git -C $wt apply /tmp/seed_${id}_patch.diff
-    out=$(cd /verif && VERIF_REPO=$wt VERIF_OUT=/tmp/seedout_$id ./bin/verif check $p 2>&1); code=$?
+    out=$(cd ${VERIF_HOME:-/verif} && VERIF_REPO=$wt VERIF_OUT=/tmp/seedout_$id ./bin/verif check $p 2>&1); code=$?
     ( cd $wt && git checkout -q -- . && git clean -fdq )
     if [ $code = 1 ]; then caught="$caught $p"; else missed="$missed $p(exit=$code)"; fi
     echo "$out" | grep -E "VIOLATION|^  \[" | head -2 | cut -c1-300 > /tmp/seed_${id}_$p.out
